@@ -54,7 +54,7 @@ func (v *loggerPlus) contextFormat(ctx Context, a ...interface{}) []interface{} 
 func (v *loggerPlus) contextFormatf(ctx Context, format string, a ...interface{}) (string, []interface{}) {
 	if c, ok := ctx.(context.Context); ok {
 		if cid, ok := c.Value(cidKey).(int); ok {
-			return "[%v][%v] " + format, append([]interface{}{os.Getpid(), cid}, a...)
+			return fmt.Sprintf("[%v][%v] ", os.Getpid(), cid) + format, a
 		}
 	} else {
 		return v.formatf(ctx, format, a...)
